@@ -1,5 +1,4 @@
-import SciVerif.Drive.Util
+import SciVerif.Drive.C03
 open Lean SciVerif.Drive
 
-/-- C03 model driver: not built yet. -/
-def main : IO Unit := serve (fun _ => throw "C03: no model yet")
+def main : IO Unit := serve SciVerif.C03.Drive.handle
